@@ -584,6 +584,35 @@ class Check:
         self.encs.append(enc)
         return enc
 
+    def guarded(self, signature, what, fn, *a, **kw):
+        """run harness code that executes / traces the code under test.  An exception that originates in
+        the repository's code on admissible inputs is a finding (reported with the exception), anything
+        else is a harness error.  Returns fn's result or None."""
+        try:
+            return fn(*a, **kw)
+        except (Unsupported, Inconclusive) as ex:
+            self.harness_error(signature, f"{type(ex).__name__}: {ex}")
+        except Exception as ex:
+            tb = ex.__traceback__
+            frames = []
+            while tb is not None:
+                frames.append(tb.tb_frame.f_code.co_filename)
+                tb = tb.tb_next
+            repo = os.path.abspath(REPO) + os.sep
+            inner_repo = [f for f in frames if os.path.abspath(f).startswith(repo)]
+            last_own = max([i for i, f in enumerate(frames) if os.path.abspath(f).startswith(VERIF + os.sep)] or [-1])
+            last_repo = max([i for i, f in enumerate(frames) if os.path.abspath(f).startswith(repo)] or [-1])
+            if inner_repo and last_repo > last_own:
+                self.violation(signature, what + f" -- the code under test raised {type(ex).__name__}",
+                               dict(reproduced=True, exception=f"{type(ex).__name__}: {str(ex)[:300]}", note="raised inside " + os.path.relpath(frames[last_repo], repo)))
+            else:
+                self.harness_error(signature, f"{type(ex).__name__}: {ex} ({traceback.format_exc()[-600:]})")
+        return None
+
+    def validate(self, enc, npoints=1, **kw):
+        n = self.guarded(f"validate:{enc.name}", f"[{enc.name}] running the real function at a concrete admissible point", enc.validate, self.rng, npoints=npoints, **kw)
+        self.validated_points += n or 0
+
     def assume(self, *texts):
         for t in texts:
             if t not in self.assumptions:
